@@ -71,3 +71,41 @@ Print Assumptions C09_doc_count.
 Theorem C09_doc_dup_fields : forall d, wf_doc d -> split_raw (render d) = Blocks (expected_dup d) /\ Forall dup_ok (expected_dup d).
 Proof. intros d H. split; [exact (split_render_dup d H) | exact (expected_dup_ok d H)]. Qed.
 Print Assumptions C09_doc_dup_fields.
+
+(* ---- at object level (heap model of C07): a LIBRARY-LEVEL deep copy - what ResolveStringReferencesMiddleware in copy mode,
+   the block sorter and copy.deepcopy make - keeps the link of every duplicate-key block inside the copy: the copy of the
+   wrapper points at the copy of the first block, and that copy is the member of the copied block list at the first block's
+   position (not the original, not a private second copy).  Proved from the isomorphism theorem of the executable deep copy
+   (Proofs/HeapCopyIso.v).  The PER-BLOCK copies of a copy-mode block middleware do not have this property on the unchanged
+   tree: known finding K13. *)
+From BP Require Import Model.Heap Model.HeapMw Proofs.HeapCopyIso.
+Theorem C09_copy_keeps_previous_block_live : forall h lib h' lib' bl xs i j w b,
+  wf_heap h -> In lib (dom h) -> deepcopy_exec h lib = (h', lib') ->
+  attr_list h lib A_blocks = Some (bl, xs) -> nth_error xs i = Some (PRef w) -> nth_error xs j = Some (PRef b) ->
+  getattr h w A_previous_block = Some (PRef b) ->
+  exists bl' xs' w' b',
+    attr_list h' lib' A_blocks = Some (bl', xs') /\ nth_error xs' i = Some (PRef w') /\ nth_error xs' j = Some (PRef b')
+    /\ getattr h' w' A_previous_block = Some (PRef b')
+    /\ ~ In b' (dom h) /\ ~ In w' (dom h).
+Proof. exact deepcopy_keeps_previous_block_live. Qed.
+Print Assumptions C09_copy_keeps_previous_block_live.
+
+(* the hypotheses are met by a library with one entry (object 5) and its duplicate (wrapper 10, previous_block = 5), and the
+   conclusion is what the executable copy computes on it: blocks [16; 21], previous_block of 21 is 16 *)
+Local Open Scope Z_scope.
+Definition ex_lib_heap : heap :=
+  [ (1%nat, OInst 2 [(1, PRef 2%nat); (2, PRef 3%nat); (3, PRef 4%nat)]);
+    (2%nat, OList [PRef 5%nat; PRef 10%nat]); (3%nat, ODict [(100, PRef 5%nat)]); (4%nat, ODict []);
+    (5%nat, OInst 3 [(7, PAtom 100)]);
+    (10%nat, OInst 11 [(14, PRef 12%nat); (7, PAtom 100); (15, PRef 5%nat)]);
+    (12%nat, OInst 3 [(7, PAtom 100)]) ].
+Example C09_copy_keeps_previous_block_live_ex :
+  wf_heap_b ex_lib_heap = true
+  /\ attr_list ex_lib_heap 1 A_blocks = Some (2%nat, [PRef 5%nat; PRef 10%nat])
+  /\ getattr ex_lib_heap 10 A_previous_block = Some (PRef 5%nat)
+  /\ (let '(h', lib') := deepcopy_exec ex_lib_heap 1 in
+      match attr_list h' lib' A_blocks with
+      | Some (_, [PRef b'; PRef w']) => getattr h' w' A_previous_block = Some (PRef b') /\ b' <> 5%nat
+      | _ => False
+      end).
+Proof. vm_compute. repeat split; auto; discriminate. Qed.
